@@ -49,6 +49,12 @@ CHECKS = {
         text='Every (shape, rotation, scale, t0<=t1, configuration) of the stated grid is evaluated by the real length() on a fresh object and must lie in the chord/control-polygon bracket of a 4096-piece subdivision, agree with independent Gauss-Legendre quadrature, be finite, non-negative and additive. The scipy seam (svgpathtools.path._quad_available) is toggled by the explorer. Exhaustive over the grid; no all-inputs claim (length is not polynomial).',
         note='Trusted: mc/refgeom.py bracket and quadrature; independent F.6.5 arc parameters. Fallback configuration runs at scales <= 2^-6 (quick) / <= 1 (thorough) under a point-evaluation budget; capped cases are reported, not counted as explored.',
         design='4/C06'),
+    'C07': dict(
+        level='exploration',
+        technique='bounded-exhaustive enumeration of curve library x scales 1e-3..1e6 x s alphabet (boundaries and their float neighbours), with a step budget on length evaluations deciding termination',
+        text='Every (curve, scale, s) of the grid is inverted by the real ilength under a budget of 400 length evaluations (a bisection on doubles needs < 70; the unfixed code needed 10000 and then raised); results must be in [0,1], invert length to max(s_tol, 4096 ulp(L)) (5e-3 L across a speed zero, the accuracy C06 grants length there), be monotone along the sorted alphabet, hit 0 and 1 exactly at 0 and L, and raise ValueError outside [0,L].',
+        note='Trusted: length() (C06). Budget is a step count, not wall time. scipy configuration only.',
+        design='4/C07'),
 }
 
 NOT_YET = {}
